@@ -27,7 +27,7 @@ def sign_pattern(g, h):
 
 
 def enum_lines(tier, seed):
-    L = lattice(3, 2)
+    L = lattice(3, 3 if tier == "thorough" else 2)
     for g in L:
         yield (g,)
 
@@ -38,7 +38,7 @@ def case_lines(ctx, cfg):
 
     (g,) = cfg
     g = tuple(g)
-    L = lattice(3, 2)
+    L = lattice(3, 3 if (ctx.tier == "thorough" or max(map(abs, g)) > 2) else 2)
     rows = [h for h in L if X.irank([list(g), list(h)]) == 2]
     mats = []
     for h in rows:
@@ -78,7 +78,7 @@ def case_lines(ctx, cfg):
 
 
 def enum_planes(tier, seed):
-    for e in JM.A3() if tier == "thorough" else JM.proj_reps(JM.A3()):
+    for e in lattice(4, 2) if tier == "thorough" else JM.proj_reps(JM.A3()):
         yield (e,)
 
 
@@ -89,7 +89,7 @@ def case_planes(ctx, cfg):
 
     (e_,) = cfg
     e_ = tuple(e_)
-    rows = [f for f in JM.A3() if X.irank([list(e_), list(f)]) == 2]
+    rows = [f for f in (lattice(4, 2) if (ctx.tier == "thorough" or max(map(abs, e_)) > 1) else JM.A3()) if X.irank([list(e_), list(f)]) == 2]
     mats = []
     for f in rows:
         ctx.state((e_, f))
